@@ -20,7 +20,9 @@ def run_logged(script, period, env_table=None, kill_at=None, faults=None, cap=No
     killed = False
     try:
         try:
-            res = run_script(script, period=period, env_table=env_table, cap=cap)
+            def hook(r):
+                fs.clock = lambda: r.house.store.stamp
+            res = run_script(script, period=period, env_table=env_table, cap=cap, after_build=hook)
         except SimKill:
             killed = True
     finally:
